@@ -9,6 +9,16 @@ Fractions, nudged by +-k ulp): rec.<axis> = v and change_scaling vs f_store_chec
 vs f_present; (2) random histories of header edits (replace vs in place), x/y/z assignments (LasData and record level),
 change_scaling, write, streaming into a writer / appender with another scaling (chunked or not): after every operation the
 integers, the record's and header's scaling, the aliasing between them and the presented x, y, z are compared.
+Presentation routes: "the x, y, z a LasData or point record presents" is every public way of getting scaled coordinates
+out of it - las.x, las['x'], las.points.x, las.points['x'], the aggregate las.xyz, what a scaled view hands out (np.asarray,
+scaled_array, copy, integer / slice / mask / list index, iteration, arithmetic, max, min), sub-records (las.points[slice | mask |
+list | int | ['x','y','z']]), a LasData of some of the points (las[slice | list]) - and, for a written file, what the readers
+show: laspy.read (all the routes again), reader.read_points / seek / chunk_iterator records, reader.read().xyz, laspy.mmap.
+After EVERY operation of a history (and initially, and for every file written) each route is compared with the model's
+presented values (one function of the state: f_presented) and, in the search, with X*scale+offset in binary64 of the stored
+integers under the current scaling (the file's integers and scaling are taken from the bytes, not through laspy); an object
+derived from the record must hold the record's integers, and its scaling when it is a part of that record; reading
+coordinates must not change the LasData.
 Search: the property stated on the implementation with exact rationals (no model)."""
 import io
 import math
@@ -24,6 +34,10 @@ ASSUMPTIONS = [
     "numpy float64 arithmetic is IEEE-754 binary64 round-to-nearest-even, numpy.round on float64 is rint, a float64 -> int32 cast of an in-range integral value is exact",
     "numpy broadcasting of the assigned value is resolved by the caller: the model receives one value per point",
     "streaming in chunks is compared with the model's single write_points of the whole record (same integers on success; the model raises iff some chunk raises)",
+    "derived objects: a sub-record (las.points[...], a reader's chunk) must carry the scaling of the record / file it is a part of; a LasData built from "
+    "some points (las[1:]) has a header of its own and takes that header's scaling - only its own integers and its own law are checked "
+    "(with a pending header edit its coordinates differ from las.x[1:]: outside the statement, reported as a note)",
+    "np.asarray(las.points[i].x) (a one-point record) raises in laspy (its __array__ returns a scalar): that record is presented through scaled_array()",
     "the binary64 half-step bound is measured (exact rational bound + |x - offset| * 2^-51), not proved; the proved bound is the exact one over Q and the half-ulp bound of each rounding",
 ]
 
@@ -196,26 +210,137 @@ def impl_store(s, o, v, axis, how):
     return ("ok", X), others
 
 
+PRES_ROUTES = ("asarray(rec[a])", "rec[a][0]", "asarray(rec.a)", "rec.a.scaled_array()", "rec.a.copy()", "rec.a[0:1]", "rec.a[[0]]",
+               "rec.a.max()", "rec.a.min()", "np.max(rec.a)", "rec.a * 1.0", "list(rec.a)", "rec[0:1].a", "rec[0].a.scaled_array()")
+
+
 def impl_present(s, o, X, axis):
+    """the one stored integer X of a record under (s, o), through every way the record presents it (PRES_ROUTES, in order)"""
     sc = [1.0, 1.0, 1.0]
     of = [0.0, 0.0, 0.0]
     sc[axis], of[axis] = s, o
     rec = new_record(1, sc, of)
     rec.array["XYZ"[axis]][0] = X
-    a = float(np.asarray(rec[AX[axis]])[0])
-    b = float(rec[AX[axis]][0])
-    return a, b
+    nm = AX[axis]
+    v = getattr(rec, nm)
+    got = (np.asarray(rec[nm])[0], rec[nm][0], np.asarray(v)[0], v.scaled_array()[0], v.copy()[0], np.asarray(v[0:1])[0],
+           np.asarray(v[[0]])[0], v.max(), v.min(), np.max(v), (v * 1.0)[0], list(v)[0], np.asarray(getattr(rec[0:1], nm))[0],
+           getattr(rec[0], nm).scaled_array())
+    return tuple(float(g) for g in got)
 
 
-def snapshot(las):
+# ---- presentation routes: every public way a LasData / point record / reader hands out scaled coordinates ----
+# values travel as Python floats (binary64, compared with == : exact), the scaling of derived objects too
+def fls(a):
+    return np.asarray(a, dtype=np.float64).ravel().tolist()
+
+
+def selections(n):
+    """deterministic index selections of n points: (spelling, index object, indices selected)"""
+    if n == 0:
+        return [("[0:0]", slice(0, 0), [])]
+    odd = [i for i in range(n) if i % 2 == (n - 1) % 2]
+    return [("[1:]", slice(1, None), list(range(1, n))), ("[::2]", slice(None, None, 2), list(range(0, n, 2))),
+            ("[mask]", np.array([i in odd for i in range(n)], dtype=bool), odd),
+            ("[list]", list(range(n - 1, -1, -1)), list(range(n - 1, -1, -1)))]
+
+
+def own_of(rec, keep):
+    """what a derived record holds itself: its integers and its scaling; keep = it must carry the scaling of the record it was taken from"""
+    arr = np.atleast_1d(rec.array)
+    return {"ints": [arr[d].tolist() for d in "XYZ"], "rs": fls(rec.scales), "ro": fls(rec.offsets), "keep": keep}
+
+
+def three(get):
+    return [fls(get(a)) for a in AX]
+
+
+def view_routes(src, view, n, sels):
+    """the ways one scaled view (las.x ...) hands out its values: (route, indices, aggregate, three columns, None)"""
+    allp = list(range(n))
+    vs = [view(a) for a in AX]
+    out = [(f"np.asarray({src})", allp, None, [fls(np.asarray(v)) for v in vs], None),
+           (f"{src}.scaled_array()", allp, None, [fls(v.scaled_array()) for v in vs], None),
+           (f"{src}.copy()", allp, None, [fls(v.copy()) for v in vs], None),
+           (f"np.array({src})", allp, None, [fls(np.array(v)) for v in vs], None),
+           (f"{src}[i]", allp, None, [[float(v[i]) for i in allp] for v in vs], None),
+           (f"list({src})", allp, None, [[float(x) for x in v] for v in vs], None),
+           (f"{src} + 0.0", allp, None, [fls(v + 0.0) for v in vs], None),
+           (f"np.multiply({src}, 1.0)", allp, None, [fls(np.multiply(v, 1.0)) for v in vs], None)]
+    for nm, sel, idx in sels:
+        out.append((f"{src}{nm}", idx, None, [fls(np.asarray(v[sel])) for v in vs], None))
+    if n > 0:
+        out.append((f"{src}.max()", allp, "max", [[float(v.max())] for v in vs], None))
+        out.append((f"{src}.min()", allp, "min", [[float(v.min())] for v in vs], None))
+        out.append((f"np.max({src})", allp, "max", [[float(np.max(v))] for v in vs], None))
+        out.append((f"np.min({src})", allp, "min", [[float(np.min(v))] for v in vs], None))
+    return out
+
+
+def record_routes(src, p, n, sels):
+    """the ways a scale-aware record presents coordinates, besides the views of its x, y, z: sub-records"""
+    out = []
+    for nm, sel, idx in sels:
+        sub = p[sel]
+        out.append((f"{src}{nm}.x", idx, None, three(lambda a: np.asarray(getattr(sub, a))), own_of(sub, True)))
+    for i in sorted({0, n - 1} if n > 0 else ()):
+        sub = p[i]
+        out.append((f"{src}[{i}].x.scaled_array()", [i], None, three(lambda a: [getattr(sub, a).scaled_array()]), own_of(sub, True)))
+    sub = p[["x", "y", "z"]]
+    out.append((f"{src}[['x', 'y', 'z']].x", list(range(n)), None, three(lambda a: np.asarray(getattr(sub, a))), own_of(sub, True)))
+    return out
+
+
+def routes(las, derived=True):
+    """every route of a LasData: (route, indices of the points shown, aggregate, three columns of floats, own | None)"""
+    p = las.points
+    n = len(p)
+    sels = selections(n)
+    allp = list(range(n))
+    xyz = np.asarray(las.xyz, dtype=np.float64).reshape(-1, 3)
+    out = [("las.xyz", allp, None, [xyz[:, k].tolist() for k in range(3)], None),
+           ("las['x']", allp, None, three(lambda a: np.asarray(las[a])), None),
+           ("las.points.x", allp, None, three(lambda a: np.asarray(getattr(p, a))), None),
+           ("las.points['x']", allp, None, three(lambda a: np.asarray(p[a])), None)]
+    out += view_routes("las.x", lambda a: getattr(las, a), n, sels)
+    out += record_routes("las.points", p, n, sels)
+    if derived and n > 0:
+        # a LasData made of some of the points: it has its own header and record (and takes the header's scaling)
+        nm, sel, idx = sels[0] if n % 2 else sels[3]
+        sub = las[sel]
+        own = own_of(sub.points, False)
+        out.append((f"las{nm}.x", idx, None, three(lambda a: np.asarray(getattr(sub, a))), own))
+        sx = np.asarray(sub.xyz, dtype=np.float64).reshape(-1, 3)
+        out.append((f"las{nm}.xyz", idx, None, [sx[:, k].tolist() for k in range(3)], own))
+    return out
+
+
+def basic(las):
     p = las.points
     return {
         "ints": [p.array[d].astype(np.int64).tolist() for d in "XYZ"],
         "rs": frs(p.scales), "ro": frs(p.offsets), "hs": frs(las.header.scales), "ho": frs(las.header.offsets),
         "alias_s": p.scales is las.header.scales, "alias_o": p.offsets is las.header.offsets,
         "xyz": [frs(np.asarray(las.x)), frs(np.asarray(las.y)), frs(np.asarray(las.z))],
-        "raw": p.array.tobytes(),
+        "raw": p.array.tobytes(), "rsf": fls(p.scales), "rof": fls(p.offsets),
     }
+
+
+def snapshot(las, derived=True):
+    snap = basic(las)
+    try:
+        snap["routes"] = routes(las, derived)
+        snap["routes_err"] = None
+    except Exception as ex:      # a route that raises presents nothing: reported by the oracle
+        import traceback
+        snap["routes"] = []
+        snap["routes_err"] = f"{common.exc_kind(ex)}: {str(ex)[:80]} at {traceback.extract_tb(ex.__traceback__)[-1].line}"
+    # reading coordinates must not change anything
+    p = las.points
+    again = {"raw": p.array.tobytes(), "rsf": fls(p.scales), "rof": fls(p.offsets), "hs": frs(las.header.scales), "ho": frs(las.header.offsets),
+             "alias_s": p.scales is las.header.scales, "alias_o": p.offsets is las.header.offsets}
+    snap["looked"] = next((k for k in again if again[k] != snap[k]), None)
+    return snap
 
 
 def read_file(data):
@@ -223,6 +348,82 @@ def read_file(data):
     l2 = laspy.read(io.BytesIO(data))
     return {"scales": frs(l2.header.scales), "offsets": frs(l2.header.offsets),
             "ints": [np.asarray(l2.points.array[d]).astype(np.int64).tolist() for d in "XYZ"]}
+
+
+def raw_file(data):
+    """scales, offsets and X, Y, Z of a LAS file taken from its bytes (public header block of the specification), without laspy"""
+    import struct
+    minor = data[25]
+    off, = struct.unpack_from("<I", data, 96)
+    size, = struct.unpack_from("<H", data, 105)
+    count, = struct.unpack_from("<I", data, 107)
+    if minor >= 4:
+        count, = struct.unpack_from("<Q", data, 247)
+    sc = struct.unpack_from("<3d", data, 131)
+    of = struct.unpack_from("<3d", data, 155)
+    pts = [struct.unpack_from("<3i", data, off + i * size) for i in range(count)]
+    return {"ints": [[pt[k] for pt in pts] for k in range(3)], "rs": [fr(x) for x in sc], "ro": [fr(x) for x in of],
+            "rsf": list(sc), "rof": list(of)}
+
+
+_MMAP_PATH = None
+
+
+def file_presentations(data):
+    """the coordinates of a written file as laspy's readers present them: a state (integers and scaling from the bytes) with
+    the routes of laspy.read, of the reader's records (read_points, chunk iterators, seek) and of laspy.mmap"""
+    import laspy
+    global _MMAP_PATH
+    st = raw_file(data)
+    n = len(st["ints"][0])
+    allp = list(range(n))
+    out = []
+    try:
+        l2 = laspy.read(io.BytesIO(data))
+        out.append(("laspy.read: las.x", allp, None, three(lambda a: np.asarray(getattr(l2, a))), own_of(l2.points, True)))
+        for (nm, idx, agg, cols, o2) in routes(l2, derived=False):
+            out.append(("laspy.read: " + nm, idx, agg, cols, o2))
+        for k in sorted({1, 2, max(n, 1)}):
+            with laspy.open(io.BytesIO(data)) as r:
+                pos = 0
+                for chunk in r.chunk_iterator(k):
+                    idx = list(range(pos, pos + len(chunk)))
+                    pos += len(chunk)
+                    out.append((f"chunk_iterator({k}): chunk.x", idx, None, three(lambda a: np.asarray(getattr(chunk, a))), own_of(chunk, True)))
+                    out.append((f"chunk_iterator({k}): chunk['x']", idx, None, three(lambda a: np.asarray(chunk[a])), own_of(chunk, True)))
+                if pos != n:
+                    out.append((f"chunk_iterator({k}): {pos} points", allp, None, [[], [], []], None))
+        with laspy.open(io.BytesIO(data)) as r:
+            a = r.read_points(1)
+            b = r.read_points(-1)
+            out.append(("read_points(1).x", allp[:1], None, three(lambda c: np.asarray(getattr(a, c))), own_of(a, True)))
+            out.append(("read_points(-1).x", allp[1:], None, three(lambda c: np.asarray(getattr(b, c))), own_of(b, True)))
+            if n > 1:
+                r.seek(n - 1)
+                c_ = r.read_points(5)
+                out.append(("seek, read_points.x", allp[n - 1:], None, three(lambda c: np.asarray(getattr(c_, c))), own_of(c_, True)))
+        with laspy.open(io.BytesIO(data)) as r:
+            l3 = r.read()
+            x3 = np.asarray(l3.xyz, dtype=np.float64).reshape(-1, 3)
+            out.append(("reader.read().xyz", allp, None, [x3[:, k].tolist() for k in range(3)], own_of(l3.points, True)))
+        if _MMAP_PATH is None:
+            import atexit, os, tempfile
+            fd, _MMAP_PATH = tempfile.mkstemp(prefix="c11_mmap_", suffix=".las", dir="/var/tmp")
+            os.close(fd)
+            atexit.register(lambda: os.path.exists(_MMAP_PATH) and os.remove(_MMAP_PATH))
+        with open(_MMAP_PATH, "wb") as fh:
+            fh.write(data)
+        with laspy.mmap(_MMAP_PATH) as mm:
+            x4 = np.array(mm.xyz, dtype=np.float64).reshape(-1, 3)
+            out.append(("laspy.mmap: las.xyz", allp, None, [x4[:, k].tolist() for k in range(3)], None))
+            out.append(("laspy.mmap: las.x", allp, None, three(lambda a: np.array(getattr(mm, a))), own_of(mm.points, True)))
+        st["routes_err"] = None
+    except Exception as ex:
+        import traceback
+        st["routes_err"] = f"{common.exc_kind(ex)}: {str(ex)[:80]} at {traceback.extract_tb(ex.__traceback__)[-1].line}"
+    st["routes"] = out
+    st["looked"] = None
+    return st
 
 
 class History:
@@ -257,7 +458,8 @@ class History:
         self.n = init["n"]
         self.steps = []          # (op dict, outcome, snapshot after)
         self.snap0 = snapshot(self.las)
-        self.obs = []            # oracle observations
+        self.last = self.snap0
+        self.obs = [({"op": "INIT"}, self.snap0, ("none",), self.snap0)]            # oracle observations
 
     # ---- op generation (online: values are chosen relative to the current scaling) ----
     def gen_op(self):
@@ -338,7 +540,7 @@ class History:
         import laspy
         las = self.las
         kind = op["op"]
-        before = snapshot(las)
+        before = self.last       # nothing happens between two operations: the snapshot taken after the previous one
         out = ("none",)
         try:
             if kind == "RS":
@@ -362,12 +564,13 @@ class History:
                 hs, ho = frs(las.header.scales), frs(las.header.offsets)
                 bio = io.BytesIO()
                 las.write(bio)
-                out = ("file", read_file(bio.getvalue()), hs, ho)
+                out = ("file", read_file(bio.getvalue()), hs, ho, file_presentations(bio.getvalue()), 0)
             elif kind == "S":
                 out = self.stream(op)
         except Exception as ex:
             out = ("err", common.exc_kind(ex), str(ex)[:80])
         after = snapshot(las)
+        self.last = after
         self.n = len(las.points)
         self.steps.append((op, out, after))
         self.obs.append((op, before, out, after))
@@ -402,7 +605,7 @@ class History:
                     ap.append_points(c)
         f = read_file(bio.getvalue())
         f["ints"] = [col[skip:] for col in f["ints"]]
-        return ("file", f, hs, ho)
+        return ("file", f, hs, ho, file_presentations(bio.getvalue()), skip)
 
     # ---- model command ----
     def op_tok(self, op):
@@ -452,6 +655,32 @@ def state_diff(m, im):
     for k in STATE_KEYS:
         if m[k] != im[k]:
             return k
+    return routes_diff(m["xyz"], m["rs"], m["ro"], im)
+
+
+def routes_diff(mxyz, mrs, mro, im):
+    """the model presents a state through one function (f_presented): every route of the implementation must show its values
+    (objects with a scaling of their own that differs from the record's are left to the oracle)"""
+    if im.get("routes_err"):
+        return "presentation raised " + im["routes_err"]
+    if im.get("looked"):
+        return "presentation modified " + im["looked"]
+    mf = [[None if x is None else float(x) for x in c] for c in mxyz]       # the model's doubles travel as exact fractions
+    mrsf = [None if x is None else float(x) for x in mrs]
+    mrof = [None if x is None else float(x) for x in mro]
+    for (name, idx, agg, cols, own) in im["routes"]:
+        if own is not None and (own["rs"] != mrsf or own["ro"] != mrof):
+            if own["keep"]:
+                return f"scaling of {name}"
+            continue
+        for a in range(3):
+            ref = [mf[a][i] for i in idx]
+            if agg is not None and any(x is None for x in ref):
+                continue
+            if agg is not None:
+                ref = [max(ref) if agg == "max" else min(ref)]
+            if cols[a] != ref:
+                return f"route {name} axis {AX[a]}"
     return None
 
 
@@ -525,9 +754,9 @@ def oracle_store(s, o, v, res, untouched):
 def oracle_present(s, o, X, got):
     exact = Fraction(X) * Fraction(s) + Fraction(o)
     ref = float(X) * s + o       # the law in binary64
-    for g in got:
+    for g, route in zip(got, PRES_ROUTES):
         if g != ref:
-            return f"presented {g!r}, X*scale+offset in binary64 is {ref!r}"
+            return f"{route} presented {g!r}, X*scale+offset in binary64 is {ref!r}"
         m = max(abs(Fraction(X) * Fraction(s)), abs(exact), abs(Fraction(o)))
         if abs(Fraction(g) - exact) > 2 * Fraction(math.ulp(float(m))):
             return f"presented {g!r} is more than 2 ulp from the exact X*scale+offset"
@@ -571,9 +800,68 @@ def fits_all(xyz, ws, wo):
 
 
 def caller_unchanged(before, after):
-    for k in ("raw", "ints", "rs", "ro", "hs", "ho", "xyz", "alias_s", "alias_o"):
+    for k in ("raw", "ints", "rs", "ro", "hs", "ho", "xyz", "alias_s", "alias_o", "routes"):
         if before[k] != after[k]:
             return k
+    return None
+
+
+def route_class(name):
+    """stable class of a route name: the digits of chunk sizes and indices do not make another kind"""
+    import re
+    return re.sub(r"\d+", "k", name)
+
+
+def oracle_routes(state, when):
+    """every presentation route of a state (a LasData after an operation, or a written file as the readers show it) against the
+    law: the values shown are X*scale+offset, in binary64, of the stored integers under the current scaling - of the record
+    itself, and for an object derived from it (sub-record, chunk, LasData of some points) of that object's own integers,
+    which are the record's, and own scaling, which is the record's when the object is a part of that record.
+    None | (kind, message)"""
+    if state.get("routes_err"):
+        return ("presentation raised", f"{when}: presenting the coordinates raised {state['routes_err']}")
+    if state.get("looked"):
+        return ("presentation modified", f"{when}: {state['looked']} of the LasData changed by reading its coordinates")
+    for (name, idx, agg, cols, own) in state["routes"]:
+        rs, ro = state["rsf"], state["rof"]
+        ints = [[state["ints"][a][i] for i in idx] for a in range(3)]
+        if own is not None:
+            if own["ints"] != ints:
+                return (f"integers of {route_class(name)}", f"{when}: {name} holds the integers {own['ints']}, the record holds {ints} for these points")
+            if own["keep"] and (own["rs"] != rs or own["ro"] != ro):
+                return (f"scaling of {route_class(name)}", f"{when}: {name} carries the scaling {own['rs']} {own['ro']}, not the current one {rs} {ro}")
+            rs, ro = own["rs"], own["ro"]
+        for a in range(3):
+            if not (math.isfinite(rs[a]) and math.isfinite(ro[a])):
+                continue
+            ref = [float(X) * rs[a] + ro[a] for X in ints[a]]
+            if agg is not None:
+                ref = [max(ref) if agg == "max" else min(ref)]
+            got = cols[a]
+            if got == ref:
+                continue
+            cls = route_class(name)
+            if len(got) != len(ref):
+                return (f"presented via {cls}", f"{when}: {name} shows {len(got)} values on axis {AX[a]} for {len(ref)} points")
+            for j, (g, e) in enumerate(zip(got, ref)):
+                if g != e:
+                    return (f"presented via {cls}", f"{when}: {name} shows {AX[a]} = {g!r}"
+                                                    f"{'' if agg else f' for point {idx[j]}'}, X*scale+offset = {e!r} "
+                                                    f"(X = {ints[a][j] if not agg else ints[a]}, scale {rs[a]!r}, offset {ro[a]!r})")
+    return None
+
+
+def oracle_file(out, what):
+    """a written file: what laspy.read gave is what the bytes say, and every reader presents the law under the file's scaling"""
+    f, fp, skip = out[1], out[4], out[5]
+    if f["scales"] != fp["rs"] or f["offsets"] != fp["ro"]:
+        return (f"{what} header read", f"laspy.read shows the scaling {[float(x) for x in f['scales']]} {[float(x) for x in f['offsets']]}, "
+                                       f"the bytes say {[float(x) for x in fp['rs']]} {[float(x) for x in fp['ro']]}")
+    if f["ints"] != [c[skip:] for c in fp["ints"]]:
+        return (f"{what} integers read", f"laspy.read shows the integers {f['ints']}, the bytes say {[c[skip:] for c in fp['ints']]}")
+    r = oracle_routes(fp, f"reading the file of the {what}")
+    if r:
+        return (f"{what} file: " + r[0], r[1])
     return None
 
 
@@ -590,6 +878,16 @@ def oracle_step(op, before, out, after):
             ref = float(X) * float(s) + float(o)
             if float(x) != ref:
                 return ("presented", f"after {k}: {AX[a]} shows {float(x)!r}, X*scale+offset = {ref!r}")
+    # ... through every route
+    r = oracle_routes(after, "initially" if k == "INIT" else f"after {k}")
+    if r:
+        return r
+    if k == "INIT":
+        return None
+    if out[0] == "file":
+        r = oracle_file(out, "write" if k == "W" else f"stream via {op['via']}")
+        if r:
+            return r
     if k in ("RS", "RO", "MS", "MO"):
         if out[0] != "none":
             return ("header edit", f"header edit raised {out}")
@@ -631,6 +929,7 @@ def oracle_step(op, before, out, after):
         if len(vals) == 0:
             return None
         grown = k == "A" and len(vals) > n
+        ungrown = before["ints"]
         if grown:      # zero points are appended first
             before = dict(before, ints=[c + [0] * (len(vals) - n) for c in before["ints"]])
         qs = [(v - o) / s for v in vals]
@@ -642,7 +941,7 @@ def oracle_step(op, before, out, after):
                 return ("assign raised", f"raised {out[1]}: {out[2]}")
             if certainly_fit:
                 return ("assign refused", "OverflowError although every value fits")
-            if after["ints"] != before["ints"]:
+            if after["ints"] != ungrown:     # a refused assignment of a longer value does not leave the record grown either
                 return ("assign failed modified", "integers changed although OverflowError was raised")
             return None
         if certainly_out:
@@ -783,7 +1082,11 @@ def correspond(ctx):
         "las.xyz = (m, 3) array, las.points.<axis> = values, "
         "change_scaling(scales?, offsets?), write, stream into a writer or appender with another scaling, whole or in chunks of 1..2} "
         "on LasData of 0..5 points (formats 0,1,3,6,7) with integers including INT_MIN/INT_MAX; values chosen relative to the scaling "
-        "in force so that most fit and some overflow. non-trivial = an edge/beyond value, or a history with a rescaling write, an "
+        "in force so that most fit and some overflow. after every operation (hence also while a header scale/offset edit is pending) "
+        "the coordinates are taken through every presentation route: las.x, las['x'], las.points.x, las.points['x'], las.xyz, the scaled "
+        "view's own ways (asarray, scaled_array, copy, int/slice/mask/list index, iteration, arithmetic, max/min), sub-records, "
+        "las[slice|list]; every written file is presented through laspy.read, read_points/seek/chunk_iterator(1, 2, n) records, "
+        "reader.read().xyz and laspy.mmap, against integers and scaling parsed from the bytes. non-trivial = an edge/beyond value, or a history with a rescaling write, an "
         "overflow or an assignment after a header edit; distinct by the exact doubles involved")
     observe(ctx)
     dis = []
@@ -791,7 +1094,22 @@ def correspond(ctx):
     cmds = [f"store {ftok(v)} {ftok(s)} {ftok(o)}" for (s, o, v, axis, how, tag, res, unt) in _ELEM]
     cmds += [f"present {X} {ftok(s)} {ftok(o)}" for (s, o, X, axis, got) in _PRES]
     hcmds = [h.command() for h in _HIST]
-    outs = common.run_model(cmds + hcmds, name="c11")
+    # the coordinates of every written file under the file's scaling, by the model (one command per distinct (X, scale, offset))
+    fcmds, fpos = [], {}
+    for h in _HIST:
+        for (op, out, after) in h.steps:
+            if out[0] == "file":
+                fp = out[4]
+                for a in range(3):
+                    if fp["rs"][a] is None or fp["ro"][a] is None:
+                        continue
+                    for X in fp["ints"][a]:
+                        key = (X, fp["rs"][a], fp["ro"][a])
+                        if key not in fpos:
+                            fpos[key] = len(fcmds)
+                            fcmds.append(f"present {X} {ftok(float(key[1]))} {ftok(float(key[2]))}")
+    outs = common.run_model(cmds + hcmds + fcmds, name="c11")
+    fouts = outs[len(cmds) + len(hcmds):]
     for (s, o, v, axis, how, tag, res, unt), mo in zip(_ELEM, outs):
         ctx.traces += 1
         ctx.count("value:" + tag)
@@ -826,7 +1144,7 @@ def correspond(ctx):
         else:
             d0 = state_diff(parse_state(parts[0]), h.snap0)
             if d0:
-                bad = (0, "initial " + d0, parts[0][:200], str(h.snap0[d0])[:200])
+                bad = (0, "initial " + d0, parts[0][:200], str(h.snap0.get(d0, [r_ for r_ in h.snap0["routes"] if r_[0] in d0][:1]))[:200])
         if bad is None:
             for i, ((op, out, after), part) in enumerate(zip(h.steps, parts[1:])):
                 mo_out, mo_state = part.split(" # ")
@@ -847,8 +1165,20 @@ def correspond(ctx):
                     break
                 d = state_diff(parse_state(mo_state), after)
                 if d:
-                    bad = (i, f"{d} after {op['op']}", str(parse_state(mo_state)[d])[:200], str(after[d])[:200])
+                    bad = (i, f"{d} after {op['op']}", str(parse_state(mo_state).get(d, parse_state(mo_state)["xyz"]))[:200],
+                           str(after.get(d, [r_ for r_ in after["routes"] if r_[0] in d][:1]))[:200])
                     break
+                if mo[0] == "file":
+                    fp = out[4]
+                    if any(x is None for x in fp["rs"] + fp["ro"]):
+                        continue
+                    mx = [[tokf(fouts[fpos[(X, fp["rs"][a], fp["ro"][a])]]) for X in fp["ints"][a]] for a in range(3)]
+                    ctx.traces += 1
+                    d = (None if (mo[1]["scales"], mo[1]["offsets"], mo[1]["ints"]) == (fp["rs"], fp["ro"], [c[out[5]:] for c in fp["ints"]])
+                         else "bytes of the file") or routes_diff(mx, fp["rs"], fp["ro"], fp)
+                    if d:
+                        bad = (i, f"file of {op['op']}: {d}", str(mx)[:200], str([r_ for r_ in fp["routes"] if r_[0] in d][:1])[:200])
+                        break
         edited = any(k in ("RS", "RO", "MS", "MO") for k in kinds)
         ctx.case(h.command(), nontrivial=rescaled or (edited and any(k in ("A", "X", "W", "S", "C") for k in kinds)),
                  sample={"history": [h.op_tok(op)[:60] for op, _, _ in h.steps], "points": h.n})
